@@ -68,6 +68,10 @@ type referenceTracker struct {
 	// loaded from the database: a uuid may be referred to through columns
 	// that refer to different tables
 	initialized map[string]bool
+
+	// updated holds, by table/uuid, the rows as left by the updates that the
+	// tracker itself generated on previous iterations
+	updated map[string]model.Model
 }
 
 func newReferenceTracker(dbModel model.DatabaseModel, provider ReferenceProvider) *referenceTracker {
@@ -81,6 +85,7 @@ func (rt *referenceTracker) processReferences(updates ModelUpdates) (ModelUpdate
 	rt.updates = updates
 	rt.tracked = make(map[string]string)
 	rt.initialized = make(map[string]bool)
+	rt.updated = make(map[string]model.Model)
 	rt.added = make(map[string]string)
 	rt.deleted = make(map[string]string)
 	rt.references = make(database.References)
@@ -551,6 +556,11 @@ func (rt *referenceTracker) updateRow(table, uuid string, row ovsdb.Row) (ModelU
 		}
 	}
 
+	// further iterations have to start from the row as it is now
+	if updated := updates.GetModel(table, uuid); updated != nil {
+		rt.updated[table+"/"+uuid] = updated
+	}
+
 	return updates, nil
 }
 
@@ -559,6 +569,10 @@ func (rt *referenceTracker) getModel(table, uuid string) (model.Model, error) {
 	if _, deleted := rt.deleted[uuid]; deleted {
 		// model has been deleted
 		return nil, nil
+	}
+	// look for the model among the rows updated on previous iterations
+	if model, ok := rt.updated[table+"/"+uuid]; ok {
+		return model, nil
 	}
 	// look for the model in the updates
 	model := rt.updates.GetModel(table, uuid)
@@ -579,15 +593,19 @@ func (rt *referenceTracker) getRow(table, uuid string) (*ovsdb.Row, error) {
 		// row has been deleted
 		return nil, nil
 	}
-	// look for the row in the updates
-	row := rt.updates.GetRow(table, uuid)
-	if row != nil {
-		return row, nil
-	}
-	// look for the model in the database and build the row
-	model, err := rt.provider.Get(rt.dbModel.Client().Name(), table, uuid)
-	if err != nil {
-		return nil, err
+	model, ok := rt.updated[table+"/"+uuid]
+	if !ok {
+		// look for the row in the updates
+		row := rt.updates.GetRow(table, uuid)
+		if row != nil {
+			return row, nil
+		}
+		// look for the model in the database and build the row
+		var err error
+		model, err = rt.provider.Get(rt.dbModel.Client().Name(), table, uuid)
+		if err != nil {
+			return nil, err
+		}
 	}
 	info, err := rt.dbModel.NewModelInfo(model)
 	if err != nil {
